@@ -31,15 +31,30 @@ C01Of(r) == IF r.t = "tf" THEN Chk(Normalised(r.x), "C01", "not_normalised")
             ELSE IF r.t = "tf2" THEN Chk(Normalised(r.x) /\ Normalised(r.y), "C01", "not_normalised")
             ELSE {}
 
-\* 3*2^53 + 13 : relative error 3u^2 + 13u^3 scaled by 2^159
-C3U2 == Add(Shl(<<3>>, 53), <<13>>)
+\* u = 2^-P.  At binary64: U2 = 106, U3 = 159 and the magnitude ranges are the ones the properties
+\* state; in a small format (exhaustive models) the ranges are the analogous windows of the format.
+U2 == 2 * P
+U3 == 3 * P
+IsB64 == P = 53
+AddLo == IF IsB64 THEN -1000 ELSE EMIN + 2 * P + 2
+AddHi == IF IsB64 THEN 1000 ELSE EMAX - 2
+MulLo == IF IsB64 THEN -450 ELSE (EMIN + 2 * P + 2) \div 2
+MulHi == IF IsB64 THEN 450 ELSE (EMAX - 2) \div 2
+RemLo == IF IsB64 THEN -400 ELSE MulLo
+RemHi == IF IsB64 THEN 400 ELSE MulHi
+RemQ == IF IsB64 THEN 90 ELSE 2 * P - 2
+NewDivLo == IF IsB64 THEN -480 ELSE MulLo
+NewDivHi == IF IsB64 THEN 480 ELSE MulHi
+NewMulLo == IF IsB64 THEN -960 ELSE EMIN + 2 * P
+\* 3*2^P + 13 : relative error 3u^2 + 13u^3 scaled by 2^(3P)
+C3U2 == Add(Shl(<<3>>, P), <<13>>)
 
 \* --------------------------------------------------------------------------
 \* C02  two-word constructors
 MagBelow(w, k) == w.k = "f" /\ (w.mag = <<>> \/ w.e + BitLen(w.mag) - 1 < k)      \* |w| < 2^k
 
 NewAddSubFails(op, a, b, r) ==
-  IF ~(MagBelow(a, 1023) /\ MagBelow(b, 1023)) THEN {Skip}
+  IF ~(MagBelow(a, EMAX) /\ MagBelow(b, EMAX)) THEN {Skip}
   ELSE IF r.t # "tf" THEN Fail("C02", "panic")
   ELSE LET t == IF op = "new_add" THEN DAdd(D(a), D(b)) ELSE DSub(D(a), D(b))
            rn == RN(t)
@@ -50,14 +65,14 @@ NewAddSubFails(op, a, b, r) ==
 NewMulFails(a, b, r) ==
   LET t == DMul(D(a), D(b)) IN
   IF ~(a.k = "f" /\ b.k = "f") THEN {Skip}
-  ELSE IF ~(t.mag = <<>> \/ (DMsb(t) >= -960 /\ DMsb(t) < 1023)) THEN {Skip}
+  ELSE IF ~(t.mag = <<>> \/ (DMsb(t) >= NewMulLo /\ DMsb(t) < EMAX)) THEN {Skip}
   ELSE IF r.t # "tf" THEN Fail("C02", "panic")
   ELSE Chk(FEq(r.x.hi, RN(t)), "C02", "hi_is_RN")
        \cup Chk(r.x.hi.k = "f" /\ r.x.lo.k = "f" /\ DCmp(Value(r.x), t) = 0, "C02", "exact_product")
        \cup C01Of(r)
 
 NewDivFails(a, b, r) ==
-  IF ~(WInRangeNZ(a, -480, 480) /\ WInRangeNZ(b, -480, 480)) THEN {Skip}
+  IF ~(WInRangeNZ(a, NewDivLo, NewDivHi) /\ WInRangeNZ(b, NewDivLo, NewDivHi)) THEN {Skip}
   ELSE IF r.t # "tf" THEN Fail("C02", "panic")
   ELSE IF ~(r.x.hi.k = "f" /\ r.x.lo.k = "f") THEN Fail("C02", "quotient_not_finite") \cup C01Of(r)
   ELSE LET hb == DMul(D(r.x.hi), D(b))
@@ -65,7 +80,7 @@ NewDivFails(a, b, r) ==
        IN \* hi within one ulp of a/b:  |hi*b - a| <= ulp(hi) * |b|
           Chk(DCmp(DAbs(DSub(hb, D(a))), DMul(DPow2(r.x.hi.e), DAbs(D(b)))) <= 0, "C02", "hi_within_ulp")
           \* |(hi+lo)*b - a| * 2^106 <= 3 * |a|
-          \cup Chk(DCmp(DScale2(DAbs(DSub(vb, D(a))), 106), DMul(DNat(<<3>>), DAbs(D(a)))) <= 0, "C02", "quotient_bound")
+          \cup Chk(DCmp(DScale2(DAbs(DSub(vb, D(a))), U2), DMul(DNat(<<3>>), DAbs(D(a)))) <= 0, "C02", "quotient_bound")
           \cup C01Of(r)
 
 FromF64Fails(a, r) ==
@@ -77,14 +92,14 @@ FromF64Fails(a, r) ==
 \* --------------------------------------------------------------------------
 \* C03  addition / subtraction
 AddSubFails(op, a, b, r) ==
-  IF ~(OkOperand(a, -1000, 1000) /\ OkOperand(b, -1000, 1000)) THEN {Skip}
+  IF ~(OkOperand(a, AddLo, AddHi) /\ OkOperand(b, AddLo, AddHi)) THEN {Skip}
   ELSE IF r.t # "tf" THEN Fail("C03", "panic")
   ELSE LET t == IF op = "add" THEN DAdd(ValOf(a), ValOf(b)) ELSE DSub(ValOf(a), ValOf(b))
            tt == a.t = "tf" /\ b.t = "tf"
            fin == r.x.hi.k = "f" /\ r.x.lo.k = "f"
        IN C01Of(r)
-          \cup Chk(fin /\ (IF tt THEN RelErrLeq(Value(r.x), t, C3U2, 159)
-                                 ELSE RelErrLeq(Value(r.x), t, <<2>>, 106)), "C03", "bound")
+          \cup Chk(fin /\ (IF tt THEN RelErrLeq(Value(r.x), t, C3U2, U3)
+                                 ELSE RelErrLeq(Value(r.x), t, <<2>>, U2)), "C03", "bound")
 
 \* --------------------------------------------------------------------------
 \* C04  multiplication
@@ -92,7 +107,7 @@ AddSubFails(op, a, b, r) ==
 ScaledRepresentable(w, p) == w.mag = <<>> \/ Representable(DMul(D(w), p))
 
 MulFails(a, b, r) ==
-  IF ~(OkOperand(a, -450, 450) /\ OkOperand(b, -450, 450)) THEN {Skip}
+  IF ~(OkOperand(a, MulLo, MulHi) /\ OkOperand(b, MulLo, MulHi)) THEN {Skip}
   ELSE IF r.t # "tf" THEN Fail("C04", "panic")
   ELSE LET va == ValOf(a)   vb == ValOf(b)
            t == DMul(va, vb)
@@ -104,7 +119,7 @@ MulFails(a, b, r) ==
            p2A == IsPow2D(va) /\ ScaledRepresentable(LoWordOf(b), va)
            p2B == IsPow2D(vb) /\ ScaledRepresentable(LoWordOf(a), vb)
        IN C01Of(r)
-          \cup Chk(fin /\ (IF tt THEN RelErrLeq(vr, t, <<5>>, 106) ELSE RelErrLeq(vr, t, <<2>>, 106)), "C04", "bound")
+          \cup Chk(fin /\ (IF tt THEN RelErrLeq(vr, t, <<5>>, U2) ELSE RelErrLeq(vr, t, <<2>>, U2)), "C04", "bound")
           \cup (IF fin /\ (unitA \/ unitB) THEN Chk(DCmp(vr, t) = 0, "C04", "unit_exact") ELSE {})
           \cup (IF fin /\ (p2A \/ p2B) THEN Chk(DCmp(vr, t) = 0, "C04", "pow2_exact") ELSE {})
 
@@ -112,10 +127,10 @@ MulFails(a, b, r) ==
 \* C05  division, reciprocal
 \* |q*b - a| * 2^106 <= num * |a|
 QuotErrLeq(q, a, b, num) ==
-  DCmp(DScale2(DAbs(DSub(DMul(q, b), a)), 106), DMul(DNat(num), DAbs(a))) <= 0
+  DCmp(DScale2(DAbs(DSub(DMul(q, b), a)), U2), DMul(DNat(num), DAbs(a))) <= 0
 
 DivFails(a, b, r) ==
-  IF ~(OkOperand(a, -450, 450) /\ OkOperandNZ(b, -450, 450)) THEN {Skip}
+  IF ~(OkOperand(a, MulLo, MulHi) /\ OkOperandNZ(b, MulLo, MulHi)) THEN {Skip}
   ELSE IF r.t # "tf" THEN Fail("C05", "panic")
   ELSE LET va == ValOf(a)   vb == ValOf(b)
            fin == r.x.hi.k = "f" /\ r.x.lo.k = "f"
@@ -149,15 +164,15 @@ AwayOf(k, a, b) == IF a.neg # b.neg THEN DSub(k, DOne) ELSE DAdd(k, DOne)
 NearInt(a, b) ==
   LET k0 == TruncQuot(a, b)
       k1 == AwayOf(k0, a, b)
-      near(n) == DCmp(DScale2(DAbs(DSub(a, DMul(n, b))), 98), DAbs(a)) <= 0
+      near(n) == DCmp(DScale2(DAbs(DSub(a, DMul(n, b))), U2 - 8), DAbs(a)) <= 0
   IN near(k0) \/ near(k1)
 \* |res - (a - k*b)| * 2^106 <= 16 * max(|a|,|b|)
 RemWithin(vr, a, b, k) ==
-  DCmp(DScale2(DAbs(DSub(vr, DSub(a, DMul(k, b)))), 106), DMul(DNat(<<16>>), DMaxAbs(a, b))) <= 0
+  DCmp(DScale2(DAbs(DSub(vr, DSub(a, DMul(k, b)))), U2), DMul(DNat(<<16>>), DMaxAbs(a, b))) <= 0
 
 RemDomain(a, b) ==
-  /\ OkOperandNZ(a, -400, 400) /\ OkOperandNZ(b, -400, 400)
-  /\ DCmpAbs(ValOf(a), DScale2(ValOf(b), 90)) <= 0                \* |a/b| <= 2^90
+  /\ OkOperandNZ(a, RemLo, RemHi) /\ OkOperandNZ(b, RemLo, RemHi)
+  /\ DCmpAbs(ValOf(a), DScale2(ValOf(b), RemQ)) <= 0              \* |a/b| <= 2^90
 
 RemFails(a, b, r) ==
   IF ~RemDomain(a, b) THEN {Skip}
@@ -166,7 +181,7 @@ RemFails(a, b, r) ==
            fin == r.x.hi.k = "f" /\ r.x.lo.k = "f"
            vr == Value(r.x)
            k0 == TruncQuot(va, vb)
-           ints == IsIntBelow(va, 53) /\ IsIntBelow(vb, 53)
+           ints == IsIntBelow(va, P) /\ IsIntBelow(vb, P)
        IN C01Of(r)
           \cup Chk(fin /\ ( \/ RemWithin(vr, va, vb, k0)
                             \/ (NearInt(va, vb) /\ ( \/ RemWithin(vr, va, vb, DAdd(k0, DOne))
@@ -189,7 +204,7 @@ DivEuclidFails(a, b, r) ==
            valid == Valid(r.x)
            vr == Value(r.x)
            q == EuclidQuot(va, vb)
-           ints == IsIntBelow(va, 53) /\ IsIntBelow(vb, 53)
+           ints == IsIntBelow(va, P) /\ IsIntBelow(vb, P)
        IN C01Of(r)
           \cup Chk(valid /\ ( \/ DCmp(vr, q) = 0
                               \/ (NearInt(va, vb) /\ ( \/ DCmp(vr, DAdd(q, DOne)) = 0
@@ -205,7 +220,7 @@ RemEuclidFails(a, b, r, de) ==
            fin == r.x.hi.k = "f" /\ r.x.lo.k = "f"
            vr == Value(r.x)
            q == EuclidQuot(va, vb)
-           ints == IsIntBelow(va, 53) /\ IsIntBelow(vb, 53)
+           ints == IsIntBelow(va, P) /\ IsIntBelow(vb, P)
            within(k) == RemWithin(vr, va, vb, k)
        IN C01Of(r)
           \cup Chk(fin /\ (IF de.has /\ Valid(de.x) THEN within(Value(de.x))
@@ -236,7 +251,7 @@ SumFails(a, r) ==
            n == Len(items)
        IN C01Of(r)
           \cup Chk(r.x.hi.k = "f" /\ r.x.lo.k = "f" /\
-                   DCmp(DScale2(DAbs(DSub(Value(r.x), exact)), 104), DMul(DInt(n + 1), mags)) <= 0, "C03", "sum_bound")
+                   DCmp(DScale2(DAbs(DSub(Value(r.x), exact)), U2 - 2), DMul(DInt(n + 1), mags)) <= 0, "C03", "sum_bound")
           \cup (IF n = 0 THEN Chk(IsZeroTF(r.x), "C03", "empty_sum_not_zero") ELSE {})
 
 \* --------------------------------------------------------------------------
@@ -254,8 +269,8 @@ ArithFails(op, A, r, de) ==
     [] op = "new_div" -> NewDivFails(A[1].w, A[2].w, r)
     [] op = "from_f64" -> FromF64Fails(A[1].w, r)
     [] op = "sum" -> SumFails(A[1], r)
-    [] op = "mul_add" -> IF OkOperand(A[1], -450, 450) /\ OkOperand(A[2], -450, 450) /\ OkOperand(A[3], -900, 900)
+    [] op = "mul_add" -> IF OkOperand(A[1], MulLo, MulHi) /\ OkOperand(A[2], MulLo, MulHi) /\ OkOperand(A[3], 2 * MulLo, 2 * MulHi)
                          THEN C01Of(r) ELSE {Skip}
-    [] op = "abs_sub" -> IF OkOperand(A[1], -1000, 1000) /\ OkOperand(A[2], -1000, 1000) THEN C01Of(r) ELSE {Skip}
+    [] op = "abs_sub" -> IF OkOperand(A[1], AddLo, AddHi) /\ OkOperand(A[2], AddLo, AddHi) THEN C01Of(r) ELSE {Skip}
     [] OTHER -> {<<"tool", "unknown_arith_op">>}
 =============================================================================
